@@ -188,30 +188,53 @@ class FnTerms:
                                 if isinstance(st, ast.AugAssign):
                                     kind = "augitem"
                                 muts.setdefault(root_name, []).append((n.id, kind, (tt, st), subs))
-        # mutations performed by nested helper functions on variables of this function (closures): attribute them to
-        # the helper's call sites, with the helper's parameters replaced by the arguments passed there
-        for nname, nfi in getattr(self.fi, "nested", {}).items():
-            sites = []
-            for n in self.cfg.nodes:
-                if n.stmt is None or n.ast is None:
-                    continue
-                root = n.ast if n.kind == "test" else n.stmt
-                if isinstance(root, (ast.FunctionDef, ast.AsyncFunctionDef)):
-                    continue
+        # mutations performed by helpers on objects of this function: nested functions mutate free variables (closures),
+        # same-module functions / methods mutate what is passed to them.  They are attributed to the call sites, with the
+        # helper's parameters replaced by the arguments passed there.
+        if ("muts", self.fi.key) not in _IMPORTING:
+            _IMPORTING.add(("muts", self.fi.key))
+            try:
                 from .cfg import header_exprs
-                for ex in ([root] if n.kind == "test" else [e for e in header_exprs(n.stmt) if e is not None]):
-                    for c in ast.walk(ex):
-                        if isinstance(c, ast.Call) and isinstance(c.func, ast.Name) and c.func.id == nname:
-                            sites.append((n.id, c))
-            if not sites:
-                continue
-            nft = fn_terms(self.repo, nfi)
-            for name, ms in nft.mutations().items():
-                for (mn, kind, payload, subs) in ms:
-                    if name in nfi.params or nft.reaching(name, mn):
-                        continue  # a local of the helper
-                    for (cs, call) in sites:
-                        muts.setdefault(name, []).append((cs, "nested:" + kind, (nft, nfi, mn, kind, payload, subs, call), []))
+                for n in self.cfg.nodes:
+                    if n.stmt is None or n.ast is None:
+                        continue
+                    root = n.ast if n.kind == "test" else n.stmt
+                    if isinstance(root, (ast.FunctionDef, ast.AsyncFunctionDef, ast.ClassDef)):
+                        continue
+                    for ex in ([root] if n.kind == "test" else [e for e in header_exprs(n.stmt) if e is not None]):
+                        for c in ast.walk(ex):
+                            if not isinstance(c, ast.Call):
+                                continue
+                            g = None
+                            nested = False
+                            if isinstance(c.func, ast.Name) and c.func.id in getattr(self.fi, "nested", {}):
+                                g, nested = self.fi.nested[c.func.id], True
+                            else:
+                                tgt = self.repo.resolve_call(self.fi, c)
+                                if hasattr(tgt, "module") and tgt.module.rel.startswith("schemes/") and tgt.module.rel.endswith("construction.py") \
+                                        and tgt.key != self.fi.key and not tgt.name.startswith("__"):
+                                    g = tgt
+                            if g is None or ("muts", g.key) in _IMPORTING:
+                                continue
+                            gft = fn_terms(self.repo, g)
+                            offset = 1 if (g.cls is not None and g.params and g.params[0] in ("self", "cls") and not nested and
+                                           not any("staticmethod" in d for d in g.decorators)) else 0
+                            for name, ms in gft.mutations().items():
+                                for (mn, kind, payload, subs) in ms:
+                                    if kind.startswith("nested:"):
+                                        continue
+                                    target_name = None
+                                    if name in g.params and not [i for i in gft.reaching(name, mn) if gft.defs[i].kind != "param"]:
+                                        idx = g.params.index(name) - offset
+                                        arg = c.args[idx] if 0 <= idx < len(c.args) else next((k.value for k in c.keywords if k.arg == name), None)
+                                        if isinstance(arg, ast.Name):
+                                            target_name = arg.id
+                                    elif nested and name not in g.params and not gft.reaching(name, mn):
+                                        target_name = name
+                                    if target_name is not None and target_name not in ("self", "cls"):
+                                        muts.setdefault(target_name, []).append((n.id, "nested:" + kind, (gft, g, mn, kind, payload, subs, c, offset), []))
+            finally:
+                _IMPORTING.discard(("muts", self.fi.key))
         self._muts = muts
         return muts
 
@@ -219,11 +242,13 @@ class FnTerms:
     def term(self, expr, nid, env=None, depth=0):
         env = env or {}
         key = (id(expr), nid, tuple(sorted((k, id(v)) for k, v in env.items())) if env else None)
-        if key in self._memo:
-            return self._memo[key]
+        hit = self._memo.get(key)
+        if hit is not None and hit[0] is expr:
+            return hit[1]
         t = self._term(expr, nid, env, depth)
         if not self._active or not _has_rec(t):
-            self._memo[key] = t
+            # the node is kept alive with the entry: ids of temporary (cloned) nodes are recycled otherwise
+            self._memo[key] = (expr, t, env)
         return t
 
     def _args(self, call, nid, env, depth):
@@ -308,10 +333,7 @@ class FnTerms:
                 it = self.term(g.iter, nid, env2, depth + 1)
                 names = []
                 for name, path in _targets(g.target):
-                    el = elem_of(it)
-                    for p in path:
-                        el = proj(el, p)
-                    env2[name] = el
+                    env2[name] = self.loop_binding(g.iter, it, path, nid, env2, depth)
                     names.append(name)
                 conds = tuple(self.term(c, nid, env2, depth + 1) for c in g.ifs)
                 gens.append((tuple(names), it, conds))
@@ -336,6 +358,83 @@ class FnTerms:
             return T(e.value)
         return ("unk", type(e).__name__)
 
+    def loop_binding(self, it_expr, it_term, path, nid, env, depth):
+        """Value bound to the target component `path` when iterating `it_expr` (enumerate / range / plain iterable)."""
+        if isinstance(it_expr, ast.Call) and dotted(it_expr.func) == "enumerate" and it_expr.args:
+            seq = self.term(it_expr.args[0], nid, env, depth + 1)
+            start = 0
+            extra = list(it_expr.args[1:]) + [k.value for k in it_expr.keywords if k.arg == "start"]
+            if extra:
+                st_t = self.term(extra[0], nid, env, depth + 1)
+                start = st_t[1] if st_t[0] == "const" else st_t
+            if path and path[0] == 0:
+                return ("counter", start, 1)
+            el = elem_of(seq)
+            for p in path[1:]:
+                el = proj(el, p)
+            if not path:
+                return ("tuple", (("counter", start, 1), el))
+            return el
+        el = elem_of(it_term)
+        for p in path:
+            el = proj(el, p)
+        return el
+
+    # ------------------------------------------------------------------ inlining of project helpers
+    def _inlinable(self, g):
+        if not hasattr(g, "module") or not g.module.rel.startswith("schemes/") or not g.module.rel.endswith("construction.py"):
+            return False
+        if g.name.startswith("__") or g.key == self.fi.key:
+            return False
+        for x in ast.walk(g.node):
+            if isinstance(x, (ast.For, ast.While, ast.AsyncFor, ast.Yield, ast.YieldFrom, ast.Try, ast.With)):
+                return False
+        return True
+
+    def _bind_args(self, g, call, nid, env, depth):
+        params = list(g.params)
+        binding = {}
+        offset = 0
+        if g.cls is not None and params and params[0] in ("self", "cls") and not any("staticmethod" in d for d in g.decorators):
+            offset = 1
+        for i, a in enumerate(call.args):
+            if i + offset < len(params):
+                binding[("param", params[i + offset])] = self.term(a, nid, env, depth + 1)
+        for k in call.keywords:
+            if k.arg:
+                binding[("param", k.arg)] = self.term(k.value, nid, env, depth + 1)
+        # defaults
+        a = g.node.args
+        pos = a.posonlyargs + a.args
+        for p, d in zip(pos[len(pos) - len(a.defaults):], a.defaults):
+            if ("param", p.arg) not in binding:
+                try:
+                    binding[("param", p.arg)] = ("const", ast.literal_eval(d))
+                except Exception:
+                    pass
+        return binding
+
+    def _inline_return(self, g, call, nid, env, depth):
+        key = ("inline", g.key)
+        if key in self._active or depth > 40:
+            return None
+        gft = fn_terms(self.repo, g)
+        rets = [n for n in gft.cfg.nodes if n.kind == "return" and n.stmt.value is not None]
+        if not rets:
+            return None
+        self._active.add(key)
+        try:
+            terms = []
+            for r in rets:
+                t = gft.term(r.stmt.value, r.id)
+                if t not in terms:
+                    terms.append(t)
+            binding = self._bind_args(g, call, nid, env, depth)
+        finally:
+            self._active.discard(key)
+        out = [substitute(t, binding) for t in terms]
+        return out[0] if len(out) == 1 else ("phi", frozenset(out))
+
     def call_term(self, e, nid, env, depth):
         d = dotted(e.func)
         args, kwargs = self._args(e, nid, env, depth)
@@ -351,6 +450,10 @@ class FnTerms:
             if not local or is_import or head in ("self", "cls"):
                 tgt = self.repo.resolve_call(self.fi, e)
                 if hasattr(tgt, "key"):
+                    if self._inlinable(tgt):
+                        inl = self._inline_return(tgt, e, nid, env, depth)
+                        if inl is not None:
+                            return inl
                     return ("call", tgt.key, args, kwargs)
                 if isinstance(tgt, tuple) and tgt[0] == "external":
                     return ("call", tgt[1], args, kwargs)
@@ -418,14 +521,14 @@ class FnTerms:
         return base
 
     def _nested_fact(self, cs, payload, depth):
-        nft, nfi, mn, kind, inner, subs, call = payload
+        nft, nfi, mn, kind, inner, subs, call, offset = payload
         fact = nft._mutation_fact(mn, kind, inner, subs, depth + 1)
         # bind the helper's parameters to the call's arguments, free variables to this function's values at the call
         binding = {}
         params = nfi.params
         for i, a in enumerate(call.args):
-            if i < len(params):
-                binding[("param", params[i])] = self.term(a, cs, None, depth + 1)
+            if i + offset < len(params):
+                binding[("param", params[i + offset])] = self.term(a, cs, None, depth + 1)
         for k in call.keywords:
             if k.arg:
                 binding[("param", k.arg)] = self.term(k.value, cs, None, depth + 1)
@@ -443,7 +546,11 @@ class FnTerms:
                 if key not in cache:
                     cache[key] = self.name_term(t[1], cs, depth + 1)
                 return cache[key]
-            return tuple(sub(x, d + 1) if isinstance(x, (tuple, frozenset)) else x for x in t)
+            out = tuple(sub(x, d + 1) if isinstance(x, (tuple, frozenset)) else x for x in t)
+            if out and out[0] == "cont" and isinstance(out[2], tuple) and out[2] and out[2][0] == "cont":
+                inner = out[2]
+                return ("cont", inner[1], inner[2], frozenset(out[3]) | frozenset(inner[3]))
+            return out
         k2, subs_t, a, b, _ = fact
         return (k2, sub(subs_t), sub(a), sub(b) if b is not None else None, cs)
 
@@ -539,7 +646,8 @@ class FnTerms:
             return self._project(d, ("enter", self.term(d.value, d.node, None, depth + 1)))
         if d.kind == "for":
             it = d.value
-            # enumerate(x[, start]) / range(...)
+            return self.loop_binding(it, self.term(it, d.node, None, depth + 1), d.path, d.node, None, depth)
+            # (kept for reference) enumerate(x[, start]) / range(...)
             if isinstance(it, ast.Call) and dotted(it.func) == "enumerate" and it.args:
                 seq = self.term(it.args[0], d.node, None, depth + 1)
                 start = 0
@@ -576,6 +684,22 @@ class FnTerms:
         return v
 
 
+def substitute(t, binding, depth=0):
+    """Replace whole sub-terms according to `binding` (dict term -> term)."""
+    if isinstance(t, frozenset):
+        return frozenset(substitute(x, binding, depth + 1) for x in t)
+    if not isinstance(t, tuple) or depth > 90:
+        return t
+    if t in binding:
+        return binding[t]
+    out = tuple(substitute(x, binding, depth + 1) if isinstance(x, (tuple, frozenset)) else x for x in t)
+    if out and out[0] == "cont" and isinstance(out[2], tuple) and out[2] and out[2][0] == "cont":
+        # a helper's view of an argument that the caller already tracks as a container: merge the two views
+        inner = out[2]
+        return ("cont", inner[1], inner[2], frozenset(out[3]) | frozenset(inner[3]))
+    return out
+
+
 def _const_or_global(v, rel, name):
     """Module constants become ('const', v) only when hashable and immutable; shared mutable objects stay symbolic."""
     if isinstance(v, (dict, list, set, bytearray)):
@@ -608,6 +732,19 @@ def elem_of(seq):
         start = a[0][1] if a and a[0][0] == "const" else (0 if not a else a[0])
         step = a[1][1] if len(a) > 1 and a[1][0] == "const" else 1
         return ("counter", start, step)
+    if seq[0] == "call" and seq[1] in ("reversed", "sorted", "list", "tuple", "iter", "set", "frozenset") and len(seq[2]) >= 1:
+        # the same elements in another order / container
+        return elem_of(seq[2][0])
+    if seq[0] == "mcall" and not seq[3] and seq[2] in ("items", "keys", "values"):
+        base = seq[1]
+        k = elem_of(base)
+        if seq[2] == "keys":
+            return k
+        if seq[2] == "values":
+            return ("sub", base, k)
+        return ("tuple", (k, ("sub", base, k)))
+    if seq[0] == "comp" and seq[1] in ("ListComp", "SetComp", "GeneratorExp"):
+        return seq[2]
     if seq[0] in ("list", "tuple", "set") and seq[1]:
         u = []
         for x in seq[1]:
@@ -743,6 +880,7 @@ def show(t, depth=0, maxdepth=7):
 
 
 _ft_cache = {}
+_IMPORTING = set()
 
 
 def fn_terms(repo, fi):
